@@ -16,9 +16,10 @@ EXPLANATION = (
     "functions only add, subtract and compare their small arguments, so a grid covering every ordering of (min, max, "
     "pivot) decides them; (ctor) the DepthBehavior constructors over a grid of small numbers (tri-state: what "
     "bounded(0, n) returns is not fixed by the property); (cycle) walkdir loop errors become WalkErrorKind::LinkCycle "
-    "(C20.map).  That walkdir honours its window, never descends into links unless asked and detects re-entrant links "
+    "(C20.map); (leaf) the flag a cancellation consults before asking walkdir to leave the current directory is the yielded entry's "
+    "own file type, so a link read as a file is a leaf and discarding it cannot pop its parent (C13.isdir).  That walkdir honours its window, never descends into links unless asked and detects re-entrant links "
     "is assumed; termination on finite trees follows from walkdir's and is not decided.")
-RULES = "C15.window (TABLE on a grid), C15.ctor (TABLE), C15.cycle (= C20.map)"
+RULES = "C15.window (TABLE on a grid), C15.ctor (TABLE), C15.cycle (= C20.map), C15.leaf (= C13.isdir)"
 
 DB = "walk::behavior::DepthBehavior"
 LB = "walk::behavior::LinkBehavior"
@@ -32,6 +33,8 @@ def run(ctx):
     rule_ctor(F, R)
     rule_window(F, R)
     c20.rule_map(F, R)
+    from . import c13
+    c13.rule_isdir(F, R)    # a link read as a file is a leaf: the flag a cancellation consults is the entry's own file type
 
 
 def decode(v):
